@@ -463,6 +463,15 @@ class Interp(AstMixin, Engine):
             return all(self.all_concrete(v) for v in vals.values())
         return True
 
+    def call_native_raw(self, f: Any, args: list[Any], kwargs: dict[str, Any]) -> Any:
+        """Native call bypassing the model table (used by models that fall back to the real callable)."""
+        try:
+            return f(*args, **kwargs)
+        except Exception as e:  # noqa: BLE001
+            if isinstance(e, (Unsupported, PathEnd, PyRaise)):
+                raise
+            raise PyRaise(ExcValue(type(e), e.args, self.cur_site()))
+
     def call_native(self, f: Any, args: list[Any], kwargs: dict[str, Any]) -> Any:
         m = self.models.get(f)
         if m is not None:
